@@ -80,8 +80,8 @@ func init() {
 		NotDecided:  "executions that are neither sequentially consistent nor flagged by the race detector (none exist for race-free Go programs)",
 		Probes:      []string{"cas-lost", "same-addr-cas-by-two-clients", "paths-observed", "denormalised-inside-lazy"},
 		FaultKinds:  []string{"sched-switch", "denormalised-wire"},
-		Quick:       plan{Builds: []buildCfg{{Race: true, Share: 1}}, Secs: 30},
-		Thorough:    plan{Builds: []buildCfg{{Race: true, Share: 3}, {Race: false, Share: 2}, {Race: true, Tags: []string{"protoopaque"}, Share: 1}}, Secs: 900},
+		Quick:       plan{Builds: []buildCfg{{Race: true, Share: 4}, {Race: true, Tags: []string{"protolegacy"}, Share: 1}}, Secs: 32},
+		Thorough:    plan{Builds: []buildCfg{{Race: true, Share: 3}, {Race: false, Share: 2}, {Race: true, Tags: []string{"protoopaque"}, Share: 1}, {Race: true, Tags: []string{"protolegacy"}, Share: 1}}, Secs: 900},
 	}
 }
 
